@@ -38,6 +38,18 @@ func c07DriverEscapes(e *Env, work string) {
 	}{
 		{"liquibase", sqltool.LiquibaseFormatter, func(p string) (migrate.Dir, error) { return sqltool.NewLiquibaseDir(p) }},
 	}
+	// texts that begin and end with a quote character, with doubled quotes at their edges: whatever the planner
+	// decides they are (already quoted or not), the statement it writes is one statement again when read back
+	for ti, text := range []string{"'tail''", "''", "'", "'a'", "''a''", "\"q\"\"", "it''", "'x''y'", "'x'y'", "''''", "'\\'", "\"", "\"\"", "\"a\"\""} {
+		t := schema.NewTable(fmt.Sprintf("edge%d", ti)).SetSchema(schema.New("app")).
+			AddColumns(schema.NewIntColumn("id", "int"), schema.NewStringColumn("body", "varchar", schema.StringSize(50)).SetComment(text)).SetComment(text)
+		cases = append(cases, dcase{"mysql", &mysql.Driver{}, mysql.DefaultPlan, t})
+	}
+	fmts = append(fmts, struct {
+		name string
+		f    migrate.Formatter
+		open func(string) (migrate.Dir, error)
+	}{"atlas", migrate.DefaultFormatter, func(p string) (migrate.Dir, error) { return migrate.NewLocalDir(p) }})
 	for _, c := range cases {
 		second := schema.NewTable("second").SetSchema(c.table.Schema).AddColumns(schema.NewIntColumn("id", map[string]string{"mysql": "int", "postgres": "integer"}[c.dialect]))
 		plan, err := c.pl.PlanChanges(ctx, "p", []schema.Change{&schema.AddTable{T: c.table}, &schema.AddTable{T: second}})
@@ -50,7 +62,7 @@ func c07DriverEscapes(e *Env, work string) {
 			want = append(want, ch.Cmd)
 		}
 		for _, f := range fmts {
-			id := fmt.Sprintf("%s plan with the dialect's escapes, %s directory, read through migrate.FileStmts with the driver", c.dialect, f.name)
+			id := fmt.Sprintf("%s plan with the dialect's escapes (table %s), %s directory, read through migrate.FileStmts with the driver", c.dialect, c.table.Name, f.name)
 			rep := map[string]any{"case": id, "plan": want}
 			e.Res.Count("drv-escapes:"+id, true, "driver-escapes:"+c.dialect)
 			files, err := f.f.Format(plan)
